@@ -333,6 +333,11 @@ OnCaller(s) == IsAsync(s.prog) => s.inpoll   \* caller-side events of async macr
 
 StepEvents(s) ==
   LET P == s.prog IN
+  \* threads: the calling thread runs on while a spawned branch panics, so it may still reach the call of a custom joiner
+  IF s.ph = "step" /\ s.panicked /\ s.pb >= 0 /\ IsSpawn(P) /\ ~IsAsync(P) /\ ~CallerPanics(s)
+     /\ s.capq = <<>> /\ JoinerMode(P, s.k) = "during" /\ s.jn = "todo"
+  THEN {E("joiner", Cardinality(Active(P, s.k)), -1, NoV, <<>>)}
+  ELSE
   IF s.ph # "step" \/ s.panicked \/ CallerPanics(s) \/ ~OnCaller(s) THEN {}
   ELSE IF s.capq # <<>> THEN {CapEvent(s)}
   ELSE IF JoinerMode(P, s.k) = "before" /\ s.jn = "todo"
